@@ -1,0 +1,41 @@
+//go:build verif
+
+package peersync
+
+import (
+	"context"
+	"time"
+)
+
+// This file is only compiled with the `verif` build tag: synchronous entry points into the message
+// handler and the poller for the verification harness in /verif.
+
+// VerifHandle processes one inbound custom message synchronously.
+func (ps *PeerSync) VerifHandle(ctx context.Context, msg CustomMessage) {
+	ps.handler.processMessage(ctx, msg)
+}
+
+// VerifPollPeers runs one poll round synchronously.
+func (ps *PeerSync) VerifPollPeers(ctx context.Context, force bool) {
+	ps.poller.pollPeers(ctx, force)
+}
+
+// VerifCleanup runs one cleanup sweep synchronously.
+func (ps *PeerSync) VerifCleanup(ctx context.Context) error {
+	return ps.poller.cleanupExpired(ctx)
+}
+
+// VerifAllowRequest exposes the poller's request rate limiter with an explicit clock.
+func (ps *PeerSync) VerifAllowRequest(peer PeerID, now time.Time, force bool) bool {
+	return ps.poller.allowRequest(peer, now, force)
+}
+
+// VerifCapabilityIsStale exposes capabilityIsStale with an explicit clock.
+func (ps *PeerSync) VerifCapabilityIsStale(peer *Peer, now time.Time) bool {
+	return ps.poller.capabilityIsStale(peer, now)
+}
+
+// VerifIntervals returns (request interval, cleanup timeout, poll interval).
+func (ps *PeerSync) VerifIntervals() (time.Duration, time.Duration, time.Duration) {
+	return ps.requestPollInterval, ps.cleanupTimeout, ps.logic.pollInterval
+}
